@@ -11,11 +11,21 @@
         bo    = the rune buffer's byte offset afterwards
         error = E- | Eb<byte> | Et<b.l.c> | Er<b.l.c>-<b.l.c>
       columns = 0 prints `*` for every column (input outside `TW.simple`).
+
+    offx.opts <plain|htmldefaults|htmldefaults-legacy> <option list>
+      → <writer> <base> <factory> <listener>       the effective configuration `DecOpts.newDecoder` computes
+        (htmldefaults: `newDecoderHtmlDefaults`, which re-issues the compiled options on the inner document
+        configuration; -legacy = the unrepaired forwarding order)
+        option list = options separated by `;`, each a chain of setters separated by `,` (`-` = `DecoderConfig{}`):
+                      c0 | c1 (SetCaptureTextOffsets)  i<b>.<l>.<c> (SetInitialTextOffset)  b<n> (SetDefaultBase /
+                      SetLocation, n-th base)  f<n> (SetBlankNodeStringFactory, n-th factory)  l<n> (directive listeners)
+        writer = b.l.c initial offset of the text writer | - (no capture);  base/factory/listener = n | -
 -/
 import RdfModel.Driver.Wire
 import RdfModel.Driver.NQO
 import RdfModel.Driver.Ttl
 import RdfModel.Model.TurtleOffsets
+import RdfModel.Model.DecoderOpts
 import RdfModel.Gen.TtlTables
 namespace RdfModel.Driver.Offx
 open RdfModel RdfModel.Wire RdfModel.TW RdfModel.NQO RdfModel.TtlO RdfModel.Driver.NQO
@@ -31,8 +41,37 @@ def showRO {α : Type} (f : α → String) (withCols : Bool) (init : Offset) : T
   | .err c o => "err:" ++ Driver.Ttl.showClass c ++ " " ++ showErrPos withCols (evalEOff onePer init o)
   | .panic => "panic"
 
+def parseSetter (t : String) : Option DecOpts.Setter :=
+  match t.toList with
+  | ['c', '0'] => some (.capture false)
+  | ['c', '1'] => some (.capture true)
+  | 'i' :: r =>
+    match (String.ofList r).splitOn "." with
+    | [b, l, c] => do pure (.initial ⟨← b.toNat?, ← l.toNat?, ← c.toNat?⟩)
+    | _ => none
+  | 'b' :: r => (String.ofList r).toNat?.map .base
+  | 'f' :: r => (String.ofList r).toNat?.map .factory
+  | 'l' :: r => (String.ofList r).toNat?.map .listener
+  | _ => none
+
+def parseOptList (s : String) : Option (List (List DecOpts.Setter)) :=
+  ((s.splitOn ";").filter (· ≠ "")).mapM (fun o =>
+    if o = "-" then some [] else (o.splitOn ",").mapM parseSetter)
+
+def showIdx : Option Nat → String
+  | some n => toString n
+  | none => "-"
+
 def handle (op : String) (args : List String) : Option String :=
   match op, args with
+  | "opts", [kind, o] => do
+    let os ← parseOptList o
+    let e ← (if kind = "plain" then some (DecOpts.newDecoder os)
+      else if kind = "htmldefaults" then some (DecOpts.newDecoderHtmlDefaults false os)
+      else if kind = "htmldefaults-legacy" then some (DecOpts.newDecoderHtmlDefaults true os)
+      else none)
+    pure ((match e.writer with | some w => showOff true w | none => "-") ++ " " ++ showIdx e.base ++ " " ++
+      showIdx e.factory ++ " " ++ showIdx e.listener)
   | "tok", [pkg, kind, e, cap, legacy, labelOnly, wc, init, inp] => do
     let T ← Driver.Ttl.tablesOf pkg
     let trig := pkg = "trig"
